@@ -12,9 +12,21 @@ import sys
 import time
 
 ROOT = os.environ.get('VERIF_ROOT', '/verif')
-COQ = os.path.join(ROOT, 'coq')
+REPO = os.path.realpath(os.environ.get('VERIF_REPO', '/repo'))
+if REPO == '/repo':
+    COQ = os.path.join(ROOT, 'coq')
+    OUT = ROOT
+else:
+    # Testing against a scratch tree (seeded changes): use a private copy of the Coq
+    # development and private output directories so that runs never disturb /verif.
+    OUT = os.path.join('/tmp/verif-alt', hashlib.md5(REPO.encode()).hexdigest()[:10])
+    COQ = os.path.join(OUT, 'coq')
+    os.makedirs(OUT, exist_ok=True)
+    subprocess.run(['rsync', '-a', '--delete', '--exclude', '_cases', '--exclude', 'Gen/*.v', '--exclude', 'Gen/*.vo',
+                    '--exclude', 'Gen/*.glob', '--exclude', 'Gen/.*.aux',
+                    '--exclude', '_CoqProject', '--exclude', 'Makefile.coq*', '--exclude', '.Makefile.coq.d',
+                    os.path.join(ROOT, 'coq') + '/', COQ + '/'], check=True)
 CASES = os.path.join(COQ, '_cases')
-REPO = '/repo'
 NPROC = min(16, os.cpu_count() or 4)
 
 FORBIDDEN = re.compile(
@@ -276,12 +288,14 @@ def coq_eval(tag, imports, exprs, preamble='', timeout=600):
 
 # --------------------------------------------------------------------------
 def load_known():
-    p = os.path.join(ROOT, 'known_findings.json')
-    try:
-        with open(p) as f:
-            return json.load(f).get('findings', [])
-    except OSError:
-        return []
+    out = []
+    for p in [os.path.join(ROOT, 'known_findings.json')] + sorted(glob.glob(os.path.join(ROOT, 'known_findings.d', '*.json'))):
+        try:
+            with open(p) as f:
+                out += json.load(f).get('findings', [])
+        except OSError:
+            pass
+    return out
 
 
 class Ctx:
@@ -321,7 +335,7 @@ class Ctx:
 
     # ---- violations
     def write_replay(self, obj):
-        d = os.path.join(ROOT, 'replay')
+        d = os.path.join(OUT, 'replay')
         os.makedirs(d, exist_ok=True)
         self.replay_n += 1
         p = os.path.join(d, '%s-%s-%d.json' % (self.pid, self.tier, self.replay_n))
@@ -360,7 +374,7 @@ class Ctx:
             'known_findings_hit': [k for k, _ in self.known_hits],
             'notes': self.notes,
         }
-        d = os.path.join(ROOT, 'evidence')
+        d = os.path.join(OUT, 'evidence')
         os.makedirs(d, exist_ok=True)
         with open(os.path.join(d, self.pid + '.json'), 'w') as f:
             json.dump(ev, f, indent=1, default=repr)
